@@ -117,6 +117,9 @@ type pubNodeBase struct {
 
 	// msgChan is an internal channel where messages from msgFetcher are collected
 	msgChan chan *Message
+	// runCtx is the context the node runs with (set by Trigger); once it is done
+	// nobody receives from msgChan any more.
+	runCtx context.Context //nolint:containedctx // observed only to stop waiting on a dead node
 }
 
 // Trigger sets up 2 goroutines, one that listens to the external error channel
@@ -145,6 +148,7 @@ func (n *pubNodeBase) Trigger(
 
 	n.running = true
 	n.msgChan = make(chan *Message)
+	n.runCtx = ctx
 	internalErrChan := make(chan error)
 
 	if externalErrChan != nil {
@@ -206,15 +210,24 @@ func (n *pubNodeBase) Trigger(
 // to implement.
 func (n *pubNodeBase) InjectControlMessage(ctx context.Context, msgType ControlMessageType, r opencdc.Record) error {
 	n.lock.Lock()
-	defer n.lock.Unlock()
 	if !n.running {
+		n.lock.Unlock()
 		return cerrors.New("tried to inject control message but PubNode is not running")
 	}
+	msgChan, runCtx := n.msgChan, n.runCtx
+	// Do not hold the lock while waiting for the node to take the message: if the
+	// node's loop has already ended (its context was cancelled, e.g. by a force
+	// stop or a failing sibling node) nobody receives from msgChan, and the
+	// node's cleanup needs this lock - holding it here would keep Run from ever
+	// returning.
+	n.lock.Unlock()
 
 	select {
 	case <-ctx.Done():
 		return ctx.Err()
-	case n.msgChan <- &Message{controlMessageType: msgType, Record: r}:
+	case <-runCtx.Done():
+		return cerrors.New("tried to inject control message but PubNode is stopping")
+	case msgChan <- &Message{controlMessageType: msgType, Record: r}:
 		return nil
 	}
 }
